@@ -1124,6 +1124,8 @@ class Folder:
                     except IndexError as ex:
                         raise FoldRaise(f"IndexError: {ex}", "IndexError")
             obj = self._eval(f.value, e)
+            if isinstance(obj, tuple) and len(obj) == 2 and obj[0] == "external" and isinstance(obj[1], str):
+                return self._external(f"{obj[1]}.{f.attr}", x, e)       # os.environ.get(...), an attribute of a library module
             if isinstance(obj, Stub):
                 args = self._elts(x.args, e)
                 kw = self._kwargs(x, e)
